@@ -276,6 +276,7 @@ func (st *State) unflatten(ts *[]*Term, t types.Type) SVal {
 // Heap views
 
 type havocEvent struct {
+	ID        int
 	Patterns  []string // display-key globs; nil = everything
 	Except    []string
 	Watermark *Term
@@ -347,8 +348,10 @@ type State struct {
 	freshRefs map[string]bool
 	shadow   map[string]SVal // engine-side values (handles, closures) stored in cells of objects allocated on this path
 	pendingBoxes []boxInit
+	arrDefs  map[string]arrDef
 	batching int
 	pending  []*Obligation
+	evCounter int
 }
 
 func (st *State) clone() *State {
@@ -391,6 +394,10 @@ func (st *State) clone() *State {
 	n.shadow = make(map[string]SVal, len(st.shadow))
 	for k, v := range st.shadow {
 		n.shadow[k] = v
+	}
+	n.arrDefs = make(map[string]arrDef, len(st.arrDefs))
+	for k, v := range st.arrDefs {
+		n.arrDefs[k] = v
 	}
 	n.pendingBoxes = nil
 	n.pending = append([]*Obligation(nil), st.pending...)
@@ -646,7 +653,7 @@ func (st *State) heapGet(h *HeapView, key string, s Sort, isRef bool) *Term {
 	var wm *Term
 	for i := 0; i < h.logLen && i < len(st.havocLog); i++ {
 		if st.havocLog[i].matches(key) {
-			epoch = i + 1
+			epoch = st.havocLog[i].ID
 			wm = st.havocLog[i].Watermark
 		}
 	}
@@ -716,6 +723,58 @@ func (st *State) heapSet(key string, v *Term) {
 	st.heap.vers[key] = c
 }
 
+// arrDef records that a version of a two-level array is "prev with the inner array at idx replaced by val".
+type arrDef struct{ prev, idx, val *Term }
+
+func (st *State) heapSetInner(key string, prev, idx, val *Term) {
+	st.heapSet(key, Store(prev, idx, val))
+	if st.arrDefs == nil {
+		st.arrDefs = map[string]arrDef{}
+	}
+	st.arrDefs[st.heap.vers[key].S] = arrDef{prev, idx, val}
+}
+
+// isOldTerm: the term is built from entry-state symbols only (parameters, entry versions of arrays,
+// literals), so as a reference it denotes an object that existed at entry.
+func isOldTerm(t *Term) bool {
+	s := t.S
+	if strings.ContainsAny(s, "#@") {
+		return false
+	}
+	for _, tok := range strings.FieldsFunc(s, func(r rune) bool { return r == '(' || r == ')' || r == ' ' }) {
+		if i := strings.Index(tok, "!"); i >= 0 && !strings.HasPrefix(tok, "p.") && !strings.HasPrefix(tok, "|") {
+			// a generated constant (fresh value) other than a parameter
+			return false
+		}
+		if tok == "A0" || strings.HasPrefix(tok, "A!") {
+			return false
+		}
+	}
+	return true
+}
+
+// innerArray resolves the inner array stored at base in a two-level array version, looking through
+// stores at provably different bases.
+func (st *State) innerArray(version, base *Term) *Term {
+	cur := version
+	for i := 0; i < 64; i++ {
+		d, ok := st.arrDefs[cur.S]
+		if !ok {
+			break
+		}
+		if d.idx.S == base.S {
+			return d.val
+		}
+		fa, fb := st.freshRefs[d.idx.S], st.freshRefs[base.S]
+		if (fa && fb) || (fa && isOldTerm(base)) || (fb && isOldTerm(d.idx)) {
+			cur = d.prev
+			continue
+		}
+		break
+	}
+	return Select(cur, base)
+}
+
 // havoc forgets the contents of all arrays matching the patterns (nil = all).
 func (st *State) havoc(patterns []string, except []string) {
 	ev := havocEvent{Patterns: patterns, Except: except, Watermark: nil}
@@ -725,6 +784,8 @@ func (st *State) havoc(patterns []string, except []string) {
 	st.allocB = nb
 	st.allocOff = 0
 	ev.Watermark = nb
+	st.evCounter++
+	ev.ID = st.evCounter
 	st.havocLog = append(st.havocLog, ev)
 	st.heap.logLen = len(st.havocLog)
 	for k := range st.heap.vers {
@@ -742,14 +803,13 @@ func (st *State) havoc(patterns []string, except []string) {
 
 func (st *State) snapshot() *HeapView { return st.heap.clone() }
 
-// touchedKeys lists keys whose current version differs from the entry state.
+// touchedKeys lists keys whose current version differs from the entry state. Only keys this path
+// has looked at are considered; arrays that were havocked but never read are covered by
+// uncoveredHavocs.
 func (st *State) touchedKeys() []string {
 	var out []string
 	seen := map[string]bool{}
 	for k := range st.heap.vers {
-		seen[k] = true
-	}
-	for k := range st.e.keySort {
 		seen[k] = true
 	}
 	for k := range seen {
@@ -1072,4 +1132,34 @@ func (st *State) funcSym(fv *FuncV) *Term {
 	}
 	id := st.e.typeID("func:" + fv.Fn.String())
 	return IntLit(int64(1000000 + id))
+}
+
+// uncoveredHavocs lists havoc patterns of this path that the modifies clause does not cover.
+func (st *State) uncoveredHavocs(mods []string) []string {
+	var out []string
+	covered := func(p string) bool {
+		for _, m := range mods {
+			if m == "*" || m == p {
+				return true
+			}
+			if strings.HasSuffix(m, "*") && strings.HasPrefix(p, strings.TrimSuffix(m, "*")) {
+				return true
+			}
+		}
+		return false
+	}
+	for _, ev := range st.havocLog {
+		if ev.Patterns == nil {
+			if !covered("*") {
+				out = append(out, "*")
+			}
+			continue
+		}
+		for _, p := range ev.Patterns {
+			if !covered(p) {
+				out = append(out, p)
+			}
+		}
+	}
+	return out
 }
